@@ -269,7 +269,9 @@ def _nelder_mead_algorithm(fun, vertices, bounds=np.array([[], []]).T,
                     f_val[i] = _neg_bounded_fun(fun, bounds, vertices[i],
                                                 args=args)
 
-                sort_ind[1:] = f_val[sort_ind[1:]].argsort() + 1
+                # Reorder the vertex indices themselves (argsort returns
+                # positions within the sub-array, not vertex indices)
+                sort_ind[1:] = sort_ind[1:][f_val[sort_ind[1:]].argsort()]
 
                 x_bar = vertices[best_val_idx] + σ * \
                     (x_bar - vertices[best_val_idx]) + \
